@@ -126,6 +126,10 @@ def compute_features(sig, fs, f_range, center_extrema='peak', burst_method='cycl
             desired application.
             """)
 
+    # Work on copies, the dictionaries passed by the caller are not modified
+    threshold_kwargs = dict(threshold_kwargs)
+    burst_kwargs = dict(burst_kwargs) if isinstance(burst_kwargs, dict) else burst_kwargs
+
     # Ensure required kwargs are set for amplitude burst detection
     if burst_method == 'amp':
         burst_kwargs['fs'] = fs
